@@ -721,3 +721,18 @@ package xmpp
 //@   ensures [C13.Resume.fail]  c.CurrentState.state != StateSessionEstablished ==> err != nil
 //@   assigns *
 //@   emits Write, Decoded, DecodedElement, StartTLSCalled, SecureAsked, PacketRead, StanzaRead, AckReqRead, StreamErrRead, TokenRead, Marshaled, StreamStarted, TlsDone, AuthConfirmed, Restarted, ResumedOK, Bound, SessionOpened, SMEnabledOK, Connected, EventHandler, Spawn, Spawn_connect$1, Spawn_recv, Spawn_keepalive, PostResumeHook
+
+// The websocket reader goroutine only moves complete frames from the socket to the queue; it never cancels the
+// transport's context (only Close does), so frames already queued when the connection drops still reach Read (C05).
+//@ event CtxCancelled()
+//@ event WsFrame(c Ref, ok Bool)
+//@ func field:xmpp.WebsocketTransport.closeFunc()
+//@   emit CtxCancelled
+//@ func (xmpp.WebsocketTransport).startReader$1(t)
+//@   requires t.wsConn != nil
+//@   ensures [C05.ws.reader.nocancel] count(CtxCancelled) == old(count(CtxCancelled))
+//@   emits WsFrame, ChanSend, ChanSend_Slice
+//@   elems *
+//@   loop 1:
+//@     invariant [C05.ws.reader.nocancel] count(CtxCancelled) == old(count(CtxCancelled))
+//@     invariant t.wsConn != nil
